@@ -123,5 +123,29 @@ def check_c04(tier, seed):
         fams = []
         if tier == 'quick' or ck.time_left() < 120:
             break
+    # fine-grained part: on the build compiled with -finstrument-functions the scheduler also preempts at (seeded) function entries,
+    # so threads interleave inside code that contains no synchronisation operation (DESIGN.md 13.6)
+    core.build('fine')
+    ffams = []
+    for (cfgo, cont, n, (w, h)) in (C04_CORPUS[:2] if tier == 'quick' else C04_CORPUS[:4] * 3):
+        cfg = dict(BASE_CFG); cfg.update(cfgo); cfg.update({'source_width': w, 'source_height': h})
+        base = gen.enc_case(cfg, cont, {'n': min(n, 8), 'pacing': 'each'}, sim={'seed': 1, 'policy': 'np'}, machine={'cores': max(4, cfg.get('logical_processors', 4)), 'sockets': 1}, oracles={'decode': 0, 'parse': 0})
+        fam = [base]
+        for k in range(6 if tier == 'quick' else 12):
+            c = copy.deepcopy(base); c['sim'] = dict(gen.schedule(rng, horizon=600 * n, allow_buggify=False), fine=rng.choice([3000, 10000, 40000, 150000])); fam.append(c)
+        ffams.append(fam)
+    flat = [c for fam in ffams for c in fam]
+    rs = pmap(lambda c: run_case(c, 'fine'), flat); i = 0
+    for fam in ffams:
+        frs = rs[i:i + len(fam)]; i += len(fam); b = frs[0]
+        for c, r in zip(fam, frs):
+            ck.ev.add_run(c, r, _default_key(c, r)); ck.ev.probe('fine_preemptions', (r.get('sim') or {}).get('fine_preemptions', 0))
+            for v in relabel(single_violations(c, r, 'fine'), 'C04', ('TERM', 'CRASH')):
+                ck.add(v, 'single')
+        if b.get('outcome') == 'ok':
+            for c, r in zip(fam[1:], frs[1:]):
+                if r.get('outcome') == 'ok' and out_key(r) != out_key(b):
+                    kind, det = props.diff_detail(b, r)
+                    ck.add(Violation('C04', 'DIFF', kind, det, c, 'fine', family=[fam[0], c]), 'diff_C04')
     ck.ev.extra['families_rounds'] = rounds
     return ck.finish()
